@@ -19,8 +19,21 @@ dynamic-wind nesting 1-4 with escapes / re-entry, errors (error, car of a number
 bodies, thunks and handlers under with-handler / call-with-exception-handler, tail loops, reset/shift,
 templates (generator by re-entry, coroutines, amb back-tracking, with-lock helper).
 
+Histories (a sixth of the programs): the text is cut into PIECES by lines `;;;---`; every piece is one evaluation
+on the same engine, like forms typed into a REPL (piece 0 = the definitions).  A piece that ends with an uncaught
+error contributes the pseudo value `!err`, the next piece runs on.  "Dying" forms store a continuation in a
+global slot and then raise an error nobody catches (`(fuse!)` raises while the global `fuses` is positive) —
+plain, under 1-3 winds, inside a procedure call, under a handler that raises again; later pieces invoke the
+stored continuations 0, 1 or several times, plain, inside winds, procedure calls and handlers.  A continuation has
+the extent of its top-level form: invoking it from a later evaluation finishes that form (this time the fuse is
+blown) and its value is the value of the invoking form.
+
 All randomness comes from the `random.Random` passed in.
 """
+
+PIECE = ";;;---"
+HIST_PROLOGUE = """(define fuses %d)
+(define (fuse!) (if (> fuses 0) (begin (set! fuses (- fuses 1)) (error "boom")) 0))"""
 
 SLOTS = ["g1", "g2", "g3"]
 
@@ -282,7 +295,59 @@ PROLOGUE = """(define tr '())
 (define bx (box #f))"""
 
 
-def gen_random(rng, size, feats, handler_errors=False, top_level_invoke=True, top_cweh=False):
+def dying_form(c, rng, size):
+    """A form that stores its continuation in a global slot and then dies with an uncaught error (first use)."""
+    g = rng.choice(SLOTS)
+    k = c.fresh("k")
+    fc = c.child(allow_reenter=False)
+    inner = gen(fc, max(1, size - 2)) if rng.random() < 0.5 else lit(rng)
+    core = "(call/cc (lambda (%s) (begin (set! %s %s) %s)))" % (k, g, k, inner)
+    tag = c.fresh("d")
+    x = rng.random()
+    c.feat("die-after-capture")
+    if x < 0.25:
+        return "(+ 1 %s (fuse!))" % core
+    if x < 0.4:
+        return "(note (+ %s (fuse!)))" % core
+    if x < 0.65:
+        c.feat("die-inside-wind")
+        return wrap_winds(rng, "(+ %s (fuse!))" % core, c.feats, tag, n=rng.choice([1, 1, 2, 3]))
+    if x < 0.75:
+        return "(let ((x %s)) (begin (note '%s) (fuse!) x))" % (core, tag)
+    if x < 0.85 and c.fns:
+        c.feat("die-inside-call")
+        return "(%s (+ %s (fuse!)))" % (rng.choice(c.fns)[0], core)
+    if x < 0.93:
+        c.feat("die-handler-reraises")
+        return "(call-with-exception-handler (lambda (e) (begin (note '%s) (error \"again\"))) (lambda () (+ %s (fuse!))))" % (tag, core)
+    # the continuation is captured inside a `before` thunk, the error comes from the body
+    c.feat("die-capture-in-before-thunk")
+    return "(dynamic-wind (lambda () (begin (note '%s-in) %s)) (lambda () (+ 2 (fuse!))) (lambda () (note '%s-out)))" % (tag, core, tag)
+
+
+def invoking_form(c, rng):
+    """Invokes a stored continuation (if there is one) from the current evaluation."""
+    g = rng.choice(SLOTS)
+    v = lit(rng)
+    call = "(if (procedure? %s) (%s %s) 0)" % (g, g, v)
+    tag = c.fresh("i")
+    x = rng.random()
+    c.feat("invoke-stored-form")
+    c.nre[0] += 1
+    if x < 0.35:
+        return call
+    if x < 0.5:
+        return "(+ 1 %s)" % call
+    if x < 0.7:
+        return wrap_winds(rng, "(+ 1 %s)" % call, c.feats, tag, n=rng.choice([1, 2]))
+    if x < 0.8 and c.fns:
+        return "(%s %s)" % (rng.choice(c.fns)[0], call)
+    if x < 0.9:
+        return "(call-with-exception-handler (lambda (e) (begin (note '%s) 0)) (lambda () (+ 1 %s)))" % (tag, call)
+    return "(note (let ((x %s)) x))" % call
+
+
+def gen_random(rng, size, feats, handler_errors=False, top_level_invoke=True, top_cweh=False, history=False):
     c = Ctx(rng, feats)
     c.allow_handler_err = handler_errors
     c.allow_top_cweh = top_cweh
@@ -304,8 +369,25 @@ def gen_random(rng, size, feats, handler_errors=False, top_level_invoke=True, to
         fc.vars = ["n", "acc"]
         lines.append("(define (%s n acc) (if (<= n 0) acc (%s (- n 1) %s)))" % (name, name, gen(fc, size - 1)))
         c.feat("tail-recursive-helper")
-    nforms = rng.choice([1, 2, 2, 3, 4])
+    if history:
+        lines.append(HIST_PROLOGUE % rng.choice([1, 1, 2]))
+        c.feat("history")
+    nforms = rng.choice([1, 2, 2, 3, 4]) if not history else rng.choice([3, 4, 5, 6])
+    died = died_last = False
     for i in range(nforms):
+        if history:
+            # piece boundary: always after the definitions, then with probability 0.7
+            if i == 0 or died_last or rng.random() < 0.7:
+                lines.append(PIECE)
+            died_last = False
+            y = rng.random()
+            if i < nforms - 1 and y < (0.6 if not died else 0.2):
+                lines.append(dying_form(c, rng, size))
+                died = died_last = True      # the rest of this piece would never run
+                continue
+            if died and y > 0.45:
+                lines.append(invoking_form(c, rng))
+                continue
         fcx = c.child()
         if not top_level_invoke and i > 0:
             fcx.allow_reenter = False
@@ -322,6 +404,8 @@ def gen_random(rng, size, feats, handler_errors=False, top_level_invoke=True, to
             lines.append(e)
     if nforms > 1:
         c.feat("multi-form")
+    if history and (died_last or rng.random() < 0.7):
+        lines.append(PIECE)
     lines.append("(reverse tr)")
     return "\n".join(lines)
 
@@ -508,6 +592,8 @@ def gen_program(rng, size=3, handler_errors=None):
     if x < 0.25:
         t = rng.choice(TEMPLATES)
         return t(rng, feats), feats
+    if x < 0.41:
+        return gen_random(rng, size, feats, handler_errors=False, history=True), feats
     # 4%: programs of the class of finding K08d (call-with-exception-handler directly in a top-level form)
     return gen_random(rng, size, feats, handler_errors=handler_errors, top_cweh=(x > 0.96)), feats
 
@@ -523,6 +609,8 @@ def _tokenize(s):
         if ch.isspace():
             i += 1
         elif ch == ";":
+            if s.startswith(PIECE, i) and (i == 0 or s[i - 1] == "\n"):
+                out.append(PIECE)
             while i < n and s[i] != "\n":
                 i += 1
         elif ch in "()[]":
